@@ -7,6 +7,51 @@ HERE = os.path.dirname(os.path.dirname(os.path.abspath(__file__)))
 CMD = "PYTHONPATH=/repo/src PYTHONHASHSEED=0 /venv/bin/python harness/check.py %s --tier %s"
 
 CHECKS = {
+    "C02": dict(
+        engine="E1-collector",
+        technique="Coq proof (frame description laws, entry fidelity as a step invariant of the work-list collector, children by kind) + in-Coq correspondence with real TriggerHandler/FrameCollector/VariableSetProcessor on synthetic frames + live programs with an independent recorder",
+        text="7 Coq theorems over Collector.v/Frames.v: one described frame per stack frame in order with its file, function, "
+             "line and class; app flag and short path per the C19 laws; frame_type selects which frames carry variables; every "
+             "table entry of every reachable collector state carries its object's type name, text cut at the limit, truncation "
+             "flag and identity; children are the object's children by kind (keys, first max_collection_size indexes, "
+             "attributes with private-name demangling). Tied to the code by running the real handler on generated object "
+             "graphs in synthetic frame chains and comparing table, frame variables, watches and frame descriptions inside "
+             "Coq; plus live generated programs under sys.settrace with an independent reader of f_locals/f_back.",
+        note="Trusted: Coq kernel+VM; harness reader (objgen.Heap) and generators; id() injective on live objects; watch "
+             "values supplied by the harness in place of eval (expression evaluation is C10); time budget not hit.",
+        design="5-C02"),
+    "C05": dict(
+        engine="E1-collector",
+        technique="Coq proof (step invariants of the work-list collector lifted over all fuel: count, string, collection, depth bounds; FIFO depth monotonicity; LIFO refuted by witness) + in-Coq correspondence with the real collector",
+        text="7 Coq theorems over Collector.v, for every heap (any width, depth, cycles), every limit setting and every fuel: "
+             "variable count <= max(initial, max_variables+1); value length <= max_string_length with the truncation flag "
+             "exact; list-like children <= max_collection_size; nesting depth < max_var_depth; with the FIFO work list the "
+             "recording order is non-decreasing in depth (locals before their contents), and a checked witness shows the LIFO "
+             "discipline violates it. Tied to the code by evaluating the model inside Coq on the graphs the real "
+             "TriggerHandler just collected (table, frame variables, watches must be equal).",
+        note="Trusted: Coq kernel+VM; harness reader and generators; id() injective on live objects; time budget not hit.",
+        design="5-C05"),
+    "C06": dict(
+        engine="E1-collector",
+        technique="Coq proof (totality of the model's observation primitives, leaf objects enqueue nothing, per-action independence) + in-Coq correspondence with the real collector on hostile values, 1-3 actions per event, line/return/exception events",
+        text="4 Coq theorems over Collector.v: every recorded entry (offending objects included) carries its real type name and "
+             "guarded text; an object without children adds nothing to the work list; the snapshot of an action among "
+             "l1 ++ A :: l2 equals its snapshot alone; unselected frames touch neither cache nor table. Tied to the code by "
+             "hostile-weighted generated graphs (bytes, datetime, deque, Enum, slots, generators, raising dunders, non-string "
+             "keys, lone surrogates) through the real handler with 1-3 tracepoints on one event, compared inside Coq, "
+             "and every produced snapshot is converted for delivery.",
+        note="Trusted: Coq kernel+VM; harness; raising dunders raise Exception subclasses; placeholder text of unprintable objects canonicalised.",
+        design="5-C06"),
+    "C07": dict(
+        engine="E1-collector",
+        technique="Coq proof (closure and identity-cache injectivity as step invariants over all fuel; locals()-alias refutation witness) + in-Coq correspondence with the real collector on graphs with sharing and cycles",
+        text="6 Coq theorems over Collector.v: in every reachable collector state every reference (roots, children, queued "
+             "parents) is in the table's domain; the identity cache is injective (one id per object, distinct objects "
+             "distinct ids); entries never exceed distinct reachable objects; a checked refutation witness for a local bound "
+             "to the frame's own locals() (recorded known finding). Tied to the code on sharing/cycle-weighted graphs, tiny "
+             "budgets, watches already in / first seen outside the frame, compared inside Coq.",
+        note="Trusted: Coq kernel+VM; harness; id() injective on live objects. Known finding: locals() aliasing.",
+        design="5-C07"),
     "C18": dict(
         engine="E4-stores",
         technique="Coq proof (step invariants over all op sequences, merge laws) + in-Coq correspondence with real BoundedAttributes/Resource/Deep.start",
@@ -62,6 +107,8 @@ def main():
                    baseline_off_cmd="cd /repo && /venv/bin/python -m pytest -ra -q -p no:cacheprovider --timeout=900 --continue-on-collection-errors",
                    source_commits=[], add_only=True),
         engines=[
+            dict(name="E1-collector", path="coq/theories/Collector.v coq/theories/CollectorProofs.v coq/theories/Frames.v harness/lib/e1.py harness/lib/objgen.py harness/props/c02.py harness/props/c05.py harness/props/c06.py harness/props/c07.py",
+                 serves_properties=["C02", "C05", "C06", "C07"], kind_free_text="Gallina work-list collector over abstract heaps; step invariants; in-Coq correspondence on generated object graphs"),
             dict(name="E4-stores", path="coq/theories/Attrs.v coq/theories/AttrsProofs.v coq/theories/Config.v harness/props/c18.py harness/props/c19.py",
                  serves_properties=["C18", "C19"], kind_free_text="Gallina models of the attribute store, resources, configuration resolution; proofs; in-Coq correspondence"),
         ],
